@@ -93,6 +93,17 @@ def sym_eq(ex, a, b):
     if isinstance(a, Agg) and isinstance(b, Agg):
         if a.ty != b.ty or a.variant != b.variant or len(a.fields) != len(b.fields): return False
         if a.ty.endswith('units::unit::Unit'): return a is b or sym_eq(ex, a.fields[1], b.fields[1])
+        if a.ty.endswith('val::grid::Grid') and len(a.fields) == 4:
+            # an absent grid meta and an empty grid meta are the same thing (C02's wording; Zinc cannot tell them apart either)
+            def meta_entries(o):
+                o = deref(ex, o)
+                if o.variant == 0: return []
+                d = deref(ex, o.fields[0]); m = deref(ex, d.fields[0])
+                return list(deref(ex, m.fields[0]).items) if isinstance(m, Agg) else None
+            ma, mb = meta_entries(a.fields[0]), meta_entries(b.fields[0])
+            if ma is not None and mb is not None and (not ma or not mb):
+                if ma or mb: return False
+                return zand(sym_eq(ex, p, q) for p, q in zip(a.fields[1:], b.fields[1:]))
         if a.ty == 'chrono::DateTime':
             from .models_chrono import utc_secs, tz_fixed_offset
             za, zb = a.fields[2], b.fields[2]
